@@ -15,7 +15,15 @@ name, and (tag `c05long`) array elements that are LONG strings — around and ab
 replace, upper-casing, interpolation), returned, stored by push / index assignment / array literal / nested push
 / through variables and parameters, copied with their array, followed by allocations through other names, then
 compared (`na`) with an independently obtained copy, measured and printed; run twice, frame vs no frame, plan vs
-no plan must print the same values. The typed generator carries the same shape (`do line(i, n)` idiom)."""
+no plan must print the same values. The typed generator carries the same shape (`do line(i, n)` idiom).
+Tags `c05impure` and `c05order` (harness/src/progen.rs, also idioms of the typed generator): a mutating method
+(`push` / `pop` / `reverse`), an index ASSIGNMENT or a read whose receiver / target chain `rows[e]`, `grid[e1][e2]`
+holds index expressions that are not pure (`queue.pop()`, functions popping a captured queue, advancing a cursor kept
+in a captured array, counting, printing; under arithmetic, as index of a table) — each index is evaluated exactly once,
+left to right; and every multi-operand construct (arguments of a user call, elements of an array literal, operands of
+a binary operator, receiver and arguments of a method, an interpolated string next to another operand) in which a
+LATER operand changes — push / pop / reverse / index write / nested push / reassignment through a capturing function
+— the array, nested array, string or number variable an EARLIER operand has read: the earlier operand keeps its value."""
 import runlib
 from common import Check
 
@@ -39,7 +47,7 @@ def run(ck: Check):
     mixed = runlib.run_streams(ck, ck.tier, kinds=("main",), n_main=n // 2)
     ck.seed -= 7
     streams["mixed"] = mixed.get("main")
-    streams["templates"] = templates(ck, 2000 if ck.tier == "quick" else 30000)
+    streams["templates"] = templates(ck, 3000 if ck.tier == "quick" else 45000)
     if ck.tier == "thorough":
         ck.leanchecker(["NaijaVerif.Props.C05"])
     if ck.is_broken():
@@ -58,6 +66,8 @@ def templates(ck, n):
     ck.extra_cov["c05_template_programs"] = info["cases"]
     ck.extra_cov["c05_scoped_template_programs"] = sum(1 for r in reqs if " tag=c05scoped " in r)
     ck.extra_cov["c05_long_string_template_programs"] = sum(1 for r in reqs if " tag=c05long " in r)
+    ck.extra_cov["c05_impure_index_chain_template_programs"] = sum(1 for r in reqs if " tag=c05impure " in r)
+    ck.extra_cov["c05_operand_order_template_programs"] = sum(1 for r in reqs if " tag=c05order " in r)
     return {"requests": reqs, "res": res, "info": info}
 
 
